@@ -11,7 +11,7 @@ pub fn prop() -> Prop {
     Prop {
         id: "C15",
         level: "model_checking",
-        rule: "values = 30 (all types, absent, empty string, strings with quote, comma, CR, LF, tab, blanks at both ends, non-ASCII, strings spelled like keywords and numbers, 64-bit and fractional numbers, nested values holding such strings); csv: every row of 1..2 selections (3 selections: quick a slice of 2 700 rows, thorough all 27 000) over the values x 4 sets of selection names (plain; with blank, comma, quote; non-ASCII; two selections sharing a name) and multi-record inputs; text: every row of 1..2 selections over 24 values with an unambiguous spelling x every option set within 3 deviations (thorough: 4) of the defaults over items separator(4), string prefix/postfix(3), null/true/false keywords(3,2,2), missing-value keyword(3), --headers(2), escape sequences(3), row separator(3); non-trivial = the row holds a string with a special character, a nested value, an absent value or a keyword look-alike; distinct by construction",
+        rule: "values = 30 (all types, absent, empty string, strings with quote, comma, CR, LF, tab, blanks at both ends, non-ASCII, strings spelled like keywords and numbers, 64-bit and fractional numbers, nested values holding such strings); csv: every row of 1..2 selections (3 selections: quick a slice of 2 700 rows, thorough all 27 000) over the values x 4 sets of selection names (plain; with blank, comma, quote; non-ASCII; two selections sharing a name) and multi-record inputs; text: every row of 1..2 selections over 24 values with an unambiguous spelling x every option set within 3 deviations of the defaults (thorough: the full product of 7 776 option sets) over items separator(4), string prefix/postfix(3), null/true/false keywords(3,2,2), missing-value keyword(3), --headers(2), escape sequences(3), row separator(3); non-trivial = the row holds a string with a special character, a nested value, an absent value or a keyword look-alike; distinct by construction",
         explanation: "csv output is read back by an independent RFC 4180 reader (skip-initial-space): header = the names in order, N fields per record, each field recovered by type (string content, decimal spelling by exact value, True/False/null, concise JSON re-read by the strict reader and free of insignificant whitespace); text output is compared byte for byte with the rendering the option help pins (prefix + escaped characters + postfix, keywords, separators)",
         assumptions: COMMON_ASSUMPTIONS.to_vec(),
         guards: vec!["quote-in-string", "comma-in-string", "newline-in-string", "absent-field", "nested-with-special-string", "header-with-special-name", "escape-sequence-applied", "missing-keyword-printed", "text-headers", "three-fields"],
@@ -357,7 +357,7 @@ impl TextOpts {
 const TEXT_VALS: [usize; 24] = [0, 1, 2, 3, 4, 5, 6, 7, 8, 9, 10, 11, 12, 13, 14, 15, 16, 18, 19, 21, 24, 25, 26, 27];
 
 fn text_part(ctx: &mut Ctx) {
-    let kmax = ctx.tier.pick(3usize, 4);
+    let kmax = ctx.tier.pick(3usize, 9);
     let mut sets: Vec<Vec<usize>> = Vec::new();
     crate::explore::product(&DIMS, |ix| {
         if ix.iter().filter(|x| **x != 0).count() <= kmax {
@@ -371,7 +371,7 @@ fn text_part(ctx: &mut Ctx) {
         let o = opts_of(ix);
         let dev = ix.iter().filter(|x| **x != 0).count();
         for n in 1..=2usize {
-            if n == 2 && dev > kmax - 1 {
+            if n == 2 && dev > kmax.min(5) - 1 {
                 continue;
             }
             let mut todo: Vec<Vec<usize>> = Vec::new();
